@@ -235,17 +235,30 @@ func (x *executor) step(m *machine, fr *frame, in ssa.Instruction) {
 // allocEscapes: does the address of this heap-allocated variable need to be a term?
 // (returned, stored into memory, converted to an interface, or passed to a non-inlined call)
 func (x *executor) allocEscapes(a *ssa.Alloc) bool {
-	refs := a.Referrers()
-	if refs == nil {
+	return x.addrEscapes(a, 0)
+}
+
+// addrEscapes: does the address v (an alloc, or a field/element address derived from one) need to be a term?
+func (x *executor) addrEscapes(v ssa.Value, depth int) bool {
+	refs := v.Referrers()
+	if refs == nil || depth > 8 {
 		return true
 	}
 	for _, r := range *refs {
 		switch r := r.(type) {
 		case *ssa.Store:
-			if r.Val == a {
+			if r.Val == v {
 				return true
 			}
-		case *ssa.UnOp, *ssa.FieldAddr, *ssa.IndexAddr, *ssa.DebugRef:
+		case *ssa.FieldAddr:
+			if x.addrEscapes(r, depth+1) {
+				return true
+			}
+		case *ssa.IndexAddr:
+			if r.X == v && x.addrEscapes(r, depth+1) {
+				return true
+			}
+		case *ssa.UnOp, *ssa.DebugRef:
 		case *ssa.MakeClosure:
 		case *ssa.Return, *ssa.MakeInterface, *ssa.Phi, *ssa.MapUpdate, *ssa.Send:
 			return true
@@ -260,6 +273,12 @@ func (x *executor) allocEscapes(a *ssa.Alloc) bool {
 			}
 			return true
 		default:
+			if depth > 0 {
+				// uses of a derived address other than loads/stores through it (slicing, conversion, ...)
+				if _, ok := r.(*ssa.Slice); ok {
+					continue
+				}
+			}
 			return true
 		}
 	}
